@@ -1148,7 +1148,7 @@ pub(crate) fn solo_store_helps_two_readers() {
     vcover!("solo_store_helps_two_readers_end");
 }
 // the same interference with all fast slots taken (the internal load goes through the helping path)
-// @harness name=rg_cas_restored_after_first_read_full props=C05,C06,C04 tier=quick flavour=nostd timeout=1800 fn=HybridStrategy::compare_and_swap+ArcSwapAny::compare_and_swap
+// @harness name=rg_cas_restored_after_first_read_full props=C05,C06,C04 tier=thorough flavour=nostd timeout=1800 fn=HybridStrategy::compare_and_swap+ArcSwapAny::compare_and_swap
 #[cfg_attr(kani, kani::proof)]
 #[cfg_attr(kani, kani::stub(crate::debt::Debt::pay_all, crate::debt::verif_h::pay_all_stub))]
 #[cfg_attr(kani, kani::stub(crate::debt::LocalNode::with, crate::debt::verif_h::list_h::with_static))]
@@ -1159,3 +1159,370 @@ pub(crate) fn rg_cas_restored_after_first_read_full() {
     vcover!("rg_cas_restored_after_first_read_full_end");
 }
 
+
+// ------------------------------------------------------------------------------------------------
+// rcu checked MODULARLY against the contracts of its callees (C06): `ArcSwapAny::load` and
+// `ArcSwapAny::compare_and_swap` are replaced by their verified contracts (load: api_load_default,
+// l1_strategy_load_*, rg_*_lin; compare_and_swap: api_cas_*, rg_cas_*), so one iteration of rcu's
+// retry loop costs a few dozen steps and the loop can be followed through a LONG run of lost
+// exchanges (the real callees make more than two lost exchanges per call unaffordable).
+//
+// The environment (other writers) acts inside the compare_and_swap contract, right before its
+// linearization point: scenario `lost(n)` = the first n exchanges of the call are lost, each to a
+// complete foreign swap that stores another pool object; the (n+1)-th succeeds.
+//
+// ensures (for the scenario): the storage is written only through compare_and_swap; every exchange
+// expects exactly the identity passed to the closure call that produced the value it tries to
+// install; closure calls == exchanges == n + 1; the result is the value replaced by the successful
+// exchange; results of the n discarded attempts are released (exact counts).
+pub(crate) static mut M_ENV_LOST: usize = 0; // how many exchanges the environment still defeats
+pub(crate) static mut M_ENV_ANY: bool = false; // symbolic environment instead of the deterministic one
+pub(crate) static mut M_ENV_ADDED: [usize; model::POOL] = [0; model::POOL];
+pub(crate) static mut M_LOADS: usize = 0;
+pub(crate) static mut M_CAS_CALLS: usize = 0;
+pub(crate) static mut M_CAS_OK: usize = 0;
+pub(crate) static mut M_BAD_EXPECTED: usize = 0;
+pub(crate) static mut M_BAD_NEW: usize = 0;
+pub(crate) static mut M_REPLACED: usize = 0;
+pub(crate) static mut M_F_CALLS: usize = 0;
+pub(crate) static mut M_F_LAST_ARG: usize = 0;
+pub(crate) static mut M_F_LAST_RES: usize = 0;
+
+/// Contract of `ArcSwapAny::load` as a caller may rely on it: a guard on the value the storage
+/// holds at an instant during the call, holding one count (the borrowing form differs only in a
+/// debt slot, which rcu never looks at).
+pub(crate) fn load_contract<T: RefCnt, S: crate::strategy::Strategy<T>>(this: &ArcSwapAny<T, S>) -> Guard<T, S> {
+    unsafe { M_LOADS += 1 };
+    let p = this.ptr.raw().load(core::sync::atomic::Ordering::SeqCst);
+    let v = mem::ManuallyDrop::new(unsafe { T::from_ptr(p) });
+    unsafe { T::inc(&v) };
+    Guard::from_inner(mem::ManuallyDrop::into_inner(v))
+}
+
+fn m_env_step(st: &crate::verif::AtomicPtr<Obj>) {
+    let cur = st.raw().load(core::sync::atomic::Ordering::SeqCst);
+    let lost = unsafe { M_ENV_LOST };
+    if lost == 0 {
+        return;
+    }
+    let cur_i = if cur == model::ptr(0) as *mut Obj { 0 } else if cur == model::ptr(1) as *mut Obj { 1 } else { 2 };
+    let q = if unsafe { M_ENV_ANY } {
+        // any foreign write (or none) – spends one unit of the budget either way
+        let c = nd::below(model::POOL as u8 + 1) as usize;
+        if c == model::POOL {
+            unsafe { M_ENV_LOST = lost - 1 };
+            return;
+        }
+        c
+    } else {
+        (cur_i + 1) % model::POOL
+    };
+    unsafe {
+        M_ENV_LOST = lost - 1;
+        // a complete foreign swap: the writer brings a reference to q and keeps what it removed
+        model::LEDGER.cnt[q] += 1;
+        M_ENV_ADDED[q] += 1;
+    }
+    st.raw().store(model::ptr(q) as *mut Obj, core::sync::atomic::Ordering::SeqCst);
+}
+
+/// Contract of `ArcSwapAny::compare_and_swap` (C05) with the environment acting before its
+/// linearization point: storage holds `current` => `new` installed, the result owns the reference
+/// the storage held; otherwise nothing written, `new` released, the result is a counted guard on
+/// the value found.
+pub(crate) struct MC<T, S>(core::marker::PhantomData<(T, S)>);
+impl<T: RefCnt, S: crate::strategy::Strategy<T>> MC<T, S> {
+pub(crate) fn cas_contract<C>(this: &ArcSwapAny<T, S>, current: C, new: T) -> Guard<T, S>
+where
+    C: crate::as_raw::AsRaw<T::Base>,
+    S: crate::strategy::CaS<T>,
+{
+    let cur_ptr = current.as_raw();
+    let new_ptr = T::as_ptr(&new);
+    unsafe {
+        M_CAS_CALLS += 1;
+        if cur_ptr as usize != M_F_LAST_ARG {
+            M_BAD_EXPECTED += 1;
+        }
+        if new_ptr as usize != M_F_LAST_RES {
+            M_BAD_NEW += 1;
+        }
+    }
+    let st: &crate::verif::AtomicPtr<T::Base> = &this.ptr;
+    // TP is the only instantiation: the environment works on the same cell
+    m_env_step(unsafe { &*(st as *const crate::verif::AtomicPtr<T::Base> as *const crate::verif::AtomicPtr<Obj>) });
+    let p = st.raw().load(core::sync::atomic::Ordering::SeqCst);
+    if p == cur_ptr {
+        st.raw().store(T::into_ptr(new), core::sync::atomic::Ordering::SeqCst);
+        unsafe {
+            M_CAS_OK += 1;
+            M_REPLACED = p as usize;
+        }
+        Guard::from_inner(unsafe { T::from_ptr(p) })
+    } else {
+        drop(new);
+        let v = mem::ManuallyDrop::new(unsafe { T::from_ptr(p) });
+        unsafe { T::inc(&v) };
+        Guard::from_inner(mem::ManuallyDrop::into_inner(v))
+    }
+}
+}
+
+fn m_rcu_closure(cur: &TP) -> TP {
+    unsafe {
+        let o = (M_F_CALLS + 1) % model::POOL;
+        M_F_CALLS += 1;
+        M_F_LAST_ARG = cur.0;
+        M_F_LAST_RES = model::addr(o);
+        fresh_handle(o)
+    }
+}
+
+fn mod_rcu(lost: usize, any_env: bool) {
+    hy::fresh_ledger();
+    let stored = 0usize;
+    let s: AS<DefaultConfig> = ArcSwapAny::with_strategy(TP::adopt(stored), hy::strategy::<DefaultConfig>());
+    unsafe {
+        M_ENV_LOST = lost;
+        M_ENV_ANY = any_env;
+        M_ENV_ADDED = [0; model::POOL];
+        M_LOADS = 0;
+        M_CAS_CALLS = 0;
+        M_CAS_OK = 0;
+        M_BAD_EXPECTED = 0;
+        M_BAD_NEW = 0;
+        M_F_CALLS = 0;
+    }
+    let c0 = [model::cnt(0), model::cnt(1), model::cnt(2)];
+    hooks_on();
+    let w_write = model::watch(model::K_WRITE, storage_addr(&s));
+    let w_any = model::watch(model::K_CAS_ANY, storage_addr(&s));
+
+    let old = s.rcu(m_rcu_closure);
+
+    hooks_off();
+    vassert!(model::w(w_write).count == 0 && model::w(w_any).count == 0, "rcu_writes_the_storage_only_through_compare_and_swap");
+    vassert!(unsafe { M_BAD_EXPECTED } == 0, "rcu_every_exchange_expects_the_value_passed_to_the_closure");
+    vassert!(unsafe { M_BAD_NEW } == 0, "rcu_every_exchange_installs_the_result_of_the_closure_call_it_belongs_to");
+    vassert!(unsafe { M_CAS_OK } == 1, "rcu_performs_exactly_one_successful_exchange");
+    vassert!(unsafe { M_F_CALLS == M_CAS_CALLS }, "rcu_one_closure_call_per_exchange");
+    if !any_env {
+        vassert!(unsafe { M_CAS_CALLS } == lost + 1, "rcu_retries_exactly_once_per_lost_exchange");
+    } else {
+        vassert!(unsafe { M_CAS_CALLS } <= lost + 1, "rcu_retries_only_when_interfered_with");
+    }
+    vassert!(old.0 == unsafe { M_REPLACED } && old.0 == unsafe { M_F_LAST_ARG }, "rcu_returns_the_value_it_replaced");
+    vassert!(stored_addr(&s) == unsafe { M_F_LAST_RES }, "rcu_leaves_the_last_result_stored");
+    // exact accounting: base + what foreign writers brought + the one installed result; every
+    // discarded result and every intermediate guard was released
+    let mut i = 0;
+    while i < model::POOL {
+        let installed = if model::addr(i) == unsafe { M_F_LAST_RES } { 1 } else { 0 };
+        vassert!(model::cnt(i) == c0[i] + unsafe { M_ENV_ADDED[i] } + installed, "rcu_discarded_results_and_guards_are_released");
+        i += 1;
+    }
+    mem::forget(old);
+    mem::forget(s);
+}
+
+// @harness name=mod_rcu_lost_40 props=C06 tier=quick flavour=nostd timeout=1800 fn=ArcSwapAny::rcu
+#[cfg_attr(kani, kani::proof)]
+#[cfg_attr(kani, kani::stub(crate::ArcSwapAny::load, crate::verif_h::api::load_contract))]
+#[cfg_attr(kani, kani::stub(crate::ArcSwapAny::compare_and_swap, crate::verif_h::api::MC::cas_contract))]
+#[cfg_attr(kani, kani::unwind(43))]
+pub(crate) fn mod_rcu_lost_40() {
+    mod_rcu(40, false);
+    vcover!("mod_rcu_lost_40_end");
+}
+// @harness name=mod_rcu_any_env_3 props=C06 tier=quick flavour=nostd timeout=1800 fn=ArcSwapAny::rcu
+#[cfg_attr(kani, kani::proof)]
+#[cfg_attr(kani, kani::stub(crate::ArcSwapAny::load, crate::verif_h::api::load_contract))]
+#[cfg_attr(kani, kani::stub(crate::ArcSwapAny::compare_and_swap, crate::verif_h::api::MC::cas_contract))]
+#[cfg_attr(kani, kani::unwind(12))]
+pub(crate) fn mod_rcu_any_env_3() {
+    mod_rcu(3, true);
+    vcover!("mod_rcu_any_env_3_end");
+}
+
+// ------------------------------------------------------------------------------------------------
+// compare_and_swap checked MODULARLY against the contract of the load it retries on (C05, C04,
+// C06): `HybridProtection::attempt` is replaced by its verified contract, `Debt::pay_all` by its
+// own, so the environment can be SYMBOLIC: before every access of the call to the storage (its own
+// plain loads, its exchanges, and the instant inside the load contract) other writers may store
+// any pool object – the same one again included (A-B-A) – up to `budget` complete foreign writes
+// per call, in any positions. This subsumes the positioned scripts of rg_cas_* for budget writes.
+//
+// ensures: result == current  =>  exactly one write event on the storage by the call, an exchange
+// that expected current, found current (the storage held it at that instant) and installed new;
+// result != current => no write at all, the result is a value the storage held during the call,
+// new released; exact counts in both cases; at most budget + 1 exchanges.
+pub(crate) static mut ME_STORAGE: *const crate::verif::AtomicPtr<Obj> = core::ptr::null();
+pub(crate) static mut ME_BUDGET: usize = 0;
+pub(crate) static mut ME_ADDED: [usize; model::POOL] = [0; model::POOL];
+pub(crate) static mut ME_HELD: [bool; model::POOL] = [false; model::POOL];
+pub(crate) static mut ME_PRE_CAS: usize = 0;
+
+fn me_step() {
+    unsafe {
+        if ME_BUDGET == 0 {
+            return;
+        }
+        let c = nd::below(model::POOL as u8 + 1) as usize;
+        if c == model::POOL {
+            return;
+        }
+        ME_BUDGET -= 1;
+        model::LEDGER.cnt[c] += 1;
+        ME_ADDED[c] += 1;
+        ME_HELD[c] = true;
+        (*ME_STORAGE).raw().store(model::ptr(c) as *mut Obj, core::sync::atomic::Ordering::SeqCst);
+    }
+}
+
+fn me_before(ev: &crate::verif::Event) {
+    if ev.addr != unsafe { ME_STORAGE } as usize {
+        return;
+    }
+    me_step();
+    if ev.op == crate::verif::Op::CasWeak || ev.op == crate::verif::Op::Cas {
+        unsafe { ME_PRE_CAS = (*ME_STORAGE).raw().load(core::sync::atomic::Ordering::SeqCst) as usize };
+    }
+}
+
+fn mod_cas(pattern: usize, budget: usize) {
+    let (stored, cur, new) = CAS_PATTERNS[pattern];
+    let (s, _pre, _node) = setup_occ::<DefaultConfig>(stored, OCC_EMPTY);
+    let h = fresh_handle(new);
+    unsafe {
+        ME_STORAGE = &s.ptr as *const crate::verif::AtomicPtr<Obj>;
+        ME_BUDGET = budget;
+        ME_ADDED = [0; model::POOL];
+        ME_HELD = [false; model::POOL];
+        ME_HELD[stored] = true;
+        ME_PRE_CAS = 0;
+        hy::ATTEMPT_ENV = Some(me_step);
+        hy::ATTEMPT_CALLS = 0;
+    }
+    let c0 = [model::cnt(0), model::cnt(1), model::cnt(2)];
+    model::log_reset();
+    unsafe { crate::verif::set_hooks(Some(me_before), Some(model::record_after)) };
+    let w_write = model::watch(model::K_WRITE, storage_addr(&s));
+    let w_cas = model::watch(model::K_CAS_ANY, storage_addr(&s));
+
+    let c = TP::adopt(cur);
+    let r = s.compare_and_swap(&c, h);
+    mem::forget(c);
+
+    hooks_off();
+    unsafe { hy::ATTEMPT_ENV = None };
+    let wr = model::w(w_write);
+    let res = r.deref().0;
+    let success = res == model::addr(cur);
+    if success {
+        vassert!(wr.count == 1, "cas_success_is_exactly_one_exchange");
+        vassert!(wr.first_rec.a == model::addr(cur) && wr.first_rec.b == model::addr(new) && wr.first_rec.res == model::addr(cur),
+            "cas_exchange_expected_current_found_current_installed_new");
+        vassert!(unsafe { ME_PRE_CAS } == model::addr(cur), "cas_storage_held_current_at_the_linearization_point");
+    } else {
+        vassert!(wr.count == 0, "cas_failure_performs_no_write_on_the_storage");
+        let ri = model::index_of(res);
+        vassert!(ri.is_some() && unsafe { ME_HELD[ri.unwrap()] }, "cas_failure_returns_a_value_the_storage_held_during_the_call");
+    }
+    let used = budget - unsafe { ME_BUDGET };
+    vassert!(model::w(w_cas).count <= 1 + used, "cas_retries_only_when_interfered_with");
+    let mut i = 0;
+    while i < model::POOL {
+        let mut expect = c0[i] + unsafe { ME_ADDED[i] };
+        if model::addr(i) == res {
+            expect += 1; // the result guard (still held)
+        }
+        if success && i == cur {
+            expect -= 1; // the reference the storage held is released
+        }
+        if !success && i == new {
+            expect -= 1; // the rejected new value is released
+        }
+        vassert!(model::cnt(i) == expect, "cas_exact_counts_under_interference");
+        i += 1;
+    }
+    mem::forget(r);
+    mem::forget(s);
+}
+
+// @harness name=mod_cas_p0_env2 props=C05,C04,C06 tier=thorough flavour=nostd timeout=1500 fn=HybridStrategy::compare_and_swap+ArcSwapAny::compare_and_swap
+#[cfg_attr(kani, kani::proof)]
+#[cfg_attr(kani, kani::stub(crate::strategy::hybrid::HybridProtection::attempt, crate::strategy::hybrid::verif_h::attempt_contract))]
+#[cfg_attr(kani, kani::stub(crate::debt::Debt::pay_all, crate::debt::verif_h::pay_all_stub))]
+#[cfg_attr(kani, kani::stub(crate::debt::LocalNode::with, crate::debt::verif_h::list_h::with_static))]
+#[cfg_attr(kani, kani::stub(crate::debt::Node::get, crate::debt::verif_h::list_h::node_get_unexpected))]
+#[cfg_attr(kani, kani::unwind(12))]
+pub(crate) fn mod_cas_p0_env2() {
+    mod_cas(0, 2);
+    vcover!("mod_cas_p0_env2_end");
+}
+// @harness name=mod_cas_p1_env2 props=C05,C04,C06 tier=quick flavour=nostd timeout=1500 fn=HybridStrategy::compare_and_swap+ArcSwapAny::compare_and_swap
+#[cfg_attr(kani, kani::proof)]
+#[cfg_attr(kani, kani::stub(crate::strategy::hybrid::HybridProtection::attempt, crate::strategy::hybrid::verif_h::attempt_contract))]
+#[cfg_attr(kani, kani::stub(crate::debt::Debt::pay_all, crate::debt::verif_h::pay_all_stub))]
+#[cfg_attr(kani, kani::stub(crate::debt::LocalNode::with, crate::debt::verif_h::list_h::with_static))]
+#[cfg_attr(kani, kani::stub(crate::debt::Node::get, crate::debt::verif_h::list_h::node_get_unexpected))]
+#[cfg_attr(kani, kani::unwind(12))]
+pub(crate) fn mod_cas_p1_env2() {
+    mod_cas(1, 2);
+    vcover!("mod_cas_p1_env2_end");
+}
+// @harness name=mod_cas_p2_env2 props=C05,C04,C06 tier=thorough flavour=nostd timeout=1500 fn=HybridStrategy::compare_and_swap+ArcSwapAny::compare_and_swap
+#[cfg_attr(kani, kani::proof)]
+#[cfg_attr(kani, kani::stub(crate::strategy::hybrid::HybridProtection::attempt, crate::strategy::hybrid::verif_h::attempt_contract))]
+#[cfg_attr(kani, kani::stub(crate::debt::Debt::pay_all, crate::debt::verif_h::pay_all_stub))]
+#[cfg_attr(kani, kani::stub(crate::debt::LocalNode::with, crate::debt::verif_h::list_h::with_static))]
+#[cfg_attr(kani, kani::stub(crate::debt::Node::get, crate::debt::verif_h::list_h::node_get_unexpected))]
+#[cfg_attr(kani, kani::unwind(12))]
+pub(crate) fn mod_cas_p2_env2() {
+    mod_cas(2, 2);
+    vcover!("mod_cas_p2_env2_end");
+}
+// @harness name=mod_cas_p3_env2 props=C05,C04,C06 tier=thorough flavour=nostd timeout=1500 fn=HybridStrategy::compare_and_swap+ArcSwapAny::compare_and_swap
+#[cfg_attr(kani, kani::proof)]
+#[cfg_attr(kani, kani::stub(crate::strategy::hybrid::HybridProtection::attempt, crate::strategy::hybrid::verif_h::attempt_contract))]
+#[cfg_attr(kani, kani::stub(crate::debt::Debt::pay_all, crate::debt::verif_h::pay_all_stub))]
+#[cfg_attr(kani, kani::stub(crate::debt::LocalNode::with, crate::debt::verif_h::list_h::with_static))]
+#[cfg_attr(kani, kani::stub(crate::debt::Node::get, crate::debt::verif_h::list_h::node_get_unexpected))]
+#[cfg_attr(kani, kani::unwind(12))]
+pub(crate) fn mod_cas_p3_env2() {
+    mod_cas(3, 2);
+    vcover!("mod_cas_p3_env2_end");
+}
+// @harness name=mod_cas_p4_env2 props=C05,C04,C06 tier=quick flavour=nostd timeout=1500 fn=HybridStrategy::compare_and_swap+ArcSwapAny::compare_and_swap
+#[cfg_attr(kani, kani::proof)]
+#[cfg_attr(kani, kani::stub(crate::strategy::hybrid::HybridProtection::attempt, crate::strategy::hybrid::verif_h::attempt_contract))]
+#[cfg_attr(kani, kani::stub(crate::debt::Debt::pay_all, crate::debt::verif_h::pay_all_stub))]
+#[cfg_attr(kani, kani::stub(crate::debt::LocalNode::with, crate::debt::verif_h::list_h::with_static))]
+#[cfg_attr(kani, kani::stub(crate::debt::Node::get, crate::debt::verif_h::list_h::node_get_unexpected))]
+#[cfg_attr(kani, kani::unwind(12))]
+pub(crate) fn mod_cas_p4_env2() {
+    mod_cas(4, 2);
+    vcover!("mod_cas_p4_env2_end");
+}
+// @harness name=mod_cas_p5_env2 props=C05,C04,C06 tier=thorough flavour=nostd timeout=1500 fn=HybridStrategy::compare_and_swap+ArcSwapAny::compare_and_swap
+#[cfg_attr(kani, kani::proof)]
+#[cfg_attr(kani, kani::stub(crate::strategy::hybrid::HybridProtection::attempt, crate::strategy::hybrid::verif_h::attempt_contract))]
+#[cfg_attr(kani, kani::stub(crate::debt::Debt::pay_all, crate::debt::verif_h::pay_all_stub))]
+#[cfg_attr(kani, kani::stub(crate::debt::LocalNode::with, crate::debt::verif_h::list_h::with_static))]
+#[cfg_attr(kani, kani::stub(crate::debt::Node::get, crate::debt::verif_h::list_h::node_get_unexpected))]
+#[cfg_attr(kani, kani::unwind(12))]
+pub(crate) fn mod_cas_p5_env2() {
+    mod_cas(5, 2);
+    vcover!("mod_cas_p5_env2_end");
+}
+// @harness name=mod_cas_p1_env3 props=C05,C04,C06 tier=thorough flavour=nostd timeout=1500 fn=HybridStrategy::compare_and_swap+ArcSwapAny::compare_and_swap
+#[cfg_attr(kani, kani::proof)]
+#[cfg_attr(kani, kani::stub(crate::strategy::hybrid::HybridProtection::attempt, crate::strategy::hybrid::verif_h::attempt_contract))]
+#[cfg_attr(kani, kani::stub(crate::debt::Debt::pay_all, crate::debt::verif_h::pay_all_stub))]
+#[cfg_attr(kani, kani::stub(crate::debt::LocalNode::with, crate::debt::verif_h::list_h::with_static))]
+#[cfg_attr(kani, kani::stub(crate::debt::Node::get, crate::debt::verif_h::list_h::node_get_unexpected))]
+#[cfg_attr(kani, kani::unwind(12))]
+pub(crate) fn mod_cas_p1_env3() {
+    mod_cas(1, 3);
+    vcover!("mod_cas_p1_env3_end");
+}
